@@ -23,7 +23,7 @@ func init() {
 		Doc: "help scan: index of the first -h/--help, -1 at the first `--` (unconditionally, inside the loop) or at the end", Run: cmd4})
 	register(&Rule{ID: "CMD-5", Props: []string{"C14", "C04"}, Floor: 4,
 		Doc: "version: tested before anything else, only on args[0] under a length guard against the declared version option's names; prints, signals the sentinel, returns nil", Run: cmd5})
-	register(&Rule{ID: "CMD-6", Props: []string{"C04"}, Floor: 4,
+	register(&Rule{ID: "CMD-6", Props: []string{"C04", "C14"}, Floor: 4,
 		Doc: "routing: a child is entered only after doInit (error: panic) and isAlias(token) on that child, with exactly the tokens after the alias; the level's own tokens args[:n] are validated first (except on the help descent); fsm is assigned only in doInit", Run: cmd6})
 	register(&Rule{ID: "CMD-7", Props: []string{"C04"}, Floor: 3,
 		Doc: "level split: number of tokens before the first alias of a direct sub-command; isAlias ranges over all aliases; aliases = strings.Fields(name)", Run: cmd7})
@@ -738,6 +738,53 @@ func cmd3(c *Ctx) {
 			continue
 		}
 		okBranch = true
+		// whose help: this level's iff the help token comes before the first sub-command name, i.e.
+		// scan result < level split
+		okWho := false
+		ir.Instrs(fn, func(in ssa.Instruction) {
+			bo, isBo := in.(*ssa.BinOp)
+			if !isBo {
+				return
+			}
+			isSplit := func(v ssa.Value) bool {
+				sv, isCall := v.(*ssa.Call)
+				if !isCall {
+					return false
+				}
+				f := ir.Static(sv)
+				if f == nil || f.Pkg != fn.Pkg || f == scan {
+					return false
+				}
+				bt, isB := sv.Type().(*types.Basic)
+				if !isB || bt.Kind() != types.Int {
+					return false
+				}
+				for _, a := range sv.Call.Args {
+					if a == ssa.Value(args) {
+						return true
+					}
+				}
+				return false
+			}
+			var want bool
+			switch {
+			case bo.X == ssa.Value(h) && isSplit(bo.Y) && bo.Op == token.LSS: // h < n
+				want = true
+			case bo.X == ssa.Value(h) && isSplit(bo.Y) && bo.Op == token.GEQ: // h >= n
+				want = false
+			case bo.Y == ssa.Value(h) && isSplit(bo.X) && bo.Op == token.GTR: // n > h
+				want = true
+			case bo.Y == ssa.Value(h) && isSplit(bo.X) && bo.Op == token.LEQ: // n <= h
+				want = false
+			default:
+				return
+			}
+			if ir.HoldsAt(bo, want, b) {
+				okWho = true
+			}
+		})
+		c.Check(okWho, Q(fn)+":help-addressee", cv.Pos(), "the help is this level's exactly when the help token precedes the first sub-command name (scan result < level split)",
+			"the help request is attributed to this level without comparing the help token's position with the level split: a help token before or after a sub-command name addresses the wrong command")
 	}
 	c.Check(okBranch, Q(fn)+":help-branch", fn.Pos(), "help for this level: PrintLongHelp, onError(errHelpRequested), return nil", why)
 	// the sentinel is used nowhere else
